@@ -38,6 +38,8 @@ func main() {
 		famC16(g, o, *n, *thorough)
 	case "c10":
 		famC10(g, o, *n, *thorough)
+	case "c11":
+		famC11(g, o, *n, *thorough)
 	case "c04":
 		famC04(g, o, *n, *thorough)
 	case "c03":
